@@ -438,10 +438,13 @@ func getNamespacesForRoleBinding(r *resource.Resource) (map[string]bool, error) 
 		return result, nil
 	}
 	for _, s := range subjects {
-		subject := s.(map[string]interface{})
+		subject, ok := s.(map[string]interface{})
+		if !ok {
+			return nil, errors.Errorf("Invalid Input: subject %v of resource %q is not a mapping", s, r.CurId())
+		}
 		if ns, ok1 := subject["namespace"]; ok1 {
 			if kind, ok2 := subject["kind"]; ok2 {
-				if kind.(string) == "ServiceAccount" {
+				if k, isString := kind.(string); isString && k == "ServiceAccount" {
 					if n, ok3 := ns.(string); ok3 {
 						result[n] = true
 					} else {
